@@ -99,7 +99,13 @@ def main(argv=None):
     if args.no_proof:
         proof = {"obligations": 0, "discharged": 0, "theorems": [], "assumptions": {}, "problems": [], "built": True}
     else:
-        proof = C.build_props(prop)
+        import re as _re
+        _mods = str(getattr(mod, "MODEL", "")).split()
+        for _imp in getattr(mod, "COQ_IMPORTS", ()):      # e.g. "From SFV Require Import StreamParse StreamCases."
+            _m = _re.match(r"\s*From SFV Require Import ([A-Za-z0-9_ ]+)\.", _imp)
+            if _m:
+                _mods += _m.group(1).split()
+        proof = C.build_props(prop, models=_mods)
         if tier == "thorough" and proof["built"] and not args.replay and not os.environ.get("SFV_NO_COQCHK"):
             proof["coqchk"], chk_problems = C.run_coqchk(prop)
             proof["problems"].extend(chk_problems)
